@@ -123,22 +123,43 @@ FG = {"black": 30, "red": 31, "green": 32, "yellow": 33, "blue": 34, "magenta": 
 ATTR = [("bold", 1), ("dark", 2), ("italic", 3), ("underlined", 4), ("blinking", 5), ("inverse", 7), ("hidden", 8)]
 
 
-def _style_case(route, fg, bg, bits):
+def _style_case(route, fg, bg, bits, split=0):
     st = Style("t")
     if fg:
         st.fg(fg)
-    if bg:
-        st.bg(bg)
     exp = set()
     if fg:
         exp.add(FG[fg])
     if bg:
         exp.add(FG[bg] + 10)
-    for (name, code), on in zip(ATTR, bits):
+    f = None
+    if route in (4, 5):
+        # the style object is used once when only its foreground and its first `split` attributes are set, then refined in place
+        # (background, remaining attributes) and used again: the second rendering must show exactly the codes of the style as it is now
+        for (name, code), on in list(zip(ATTR, bits))[:split]:
+            if on:
+                getattr(st, name)()
+        f = AnsiFormatter(forced=True)
+        if route == 5:
+            f.add_style(st)
+            f.format("<t>x</t>")
+        else:
+            f.format("x", st)
+        AnsiFormatter(forced=True).format("x", st)          # ... also by an unrelated formatter
+    if bg:
+        st.bg(bg)
+    for k, ((name, code), on) in enumerate(zip(ATTR, bits)):
         if on:
-            getattr(st, name)()
+            if not (route in (4, 5) and k < split):
+                getattr(st, name)()
             exp.add(code)
-    if route == 0:
+    if route == 4:
+        out = f.format("x", st)
+    elif route == 5:
+        f2 = AnsiFormatter(forced=True)
+        f2.add_style(st)
+        out = f2.format("<t>x</t>")
+    elif route == 0:
         f = AnsiFormatter(StyleSet([st]), forced=True)
         out = f.format("<t>x</t>")
     elif route == 1:
@@ -169,10 +190,11 @@ def sgr(fg: int, bg: int, b0: bool, b1: bool, b2: bool, b3: bool, b4: bool, b5: 
     pre: 0 <= fg < 11 and 0 <= bg < 11
     pre: PART.get("bg") is None or bg == PART["bg"]
     pre: PART.get("bgs") is None or bg in PART["bgs"]
+    pre: PART.get("fgs") is None or fg in PART["fgs"]
     post: _
     """
     bits = [conc_bool(b) for b in (b0, b1, b2, b3, b4, b5, b6)]
-    return untraced(_style_case, PART["route"], COLORS[conc_int(fg, 0, 10)], COLORS[conc_int(bg, 0, 10)], bits)
+    return untraced(_style_case, PART["route"], COLORS[conc_int(fg, 0, 10)], COLORS[conc_int(bg, 0, 10)], bits, PART.get("split", 0))
 
 
 # ---------------------------------------------------------------- exactly one newline
@@ -303,10 +325,28 @@ def indent_twin(a0: int, a1: int, a2: int, a3: int, r0: bool, r1: bool, r2: bool
     return not (ok and a0 == 4 and a1 == 2 and r1)
 
 
+# ---- indentation on section outputs: a line keeps the indentation that was in force when it was written, also after another section redraws it
+def section_indent(s1: int, k1: int, l1: int, i1: int, s2: int, k2: int, l2: int, i2: int, s3: int, k3: int, l3: int, i3: int) -> bool:
+    """
+    pre: 0 <= s1 < 2 and 0 <= s2 < 2 and 0 <= s3 < 2 and 0 <= k1 < 3 and 0 <= k2 < 3 and 0 <= k3 < 3
+    pre: 0 <= l1 < 2 and 0 <= l2 < 2 and 0 <= l3 < 2 and 0 <= i1 < 3 and 0 <= i2 < 3 and 0 <= i3 < 3
+    pre: PART["nops"] > 2 or (s3 == 0 and k3 == 0 and l3 == 0 and i3 == 0)
+    post: _
+    """
+    from harness import c15
+    ops = [(conc_int(s_, 0, 1), c15.KINDS[conc_int(k, 0, 2)], [1, 3][conc_int(l, 0, 1)], [0, 1, 4][conc_int(i, 0, 2)])
+           for s_, k, l, i in ((s1, k1, l1, i1), (s2, k2, l2, i2), (s3, k3, l3, i3))][: PART["nops"]]
+    return untraced(c15._sequence_case, 12, 2, ops, PART["ansi"], True)
+
+
 def conditions(tier):
     quick = tier == "quick"
     t = 100 if quick else 1200
     conds = []
+    for ansi in (True, False):
+        conds.append({"name": "section_indent[%s]" % ("ansi" if ansi else "plain"), "fn": section_indent, "timeout": t, "part": {"ansi": ansi, "nops": 2 if quick else 3},
+                      "bounds": "two prefilled sections of one output (terminal width 12), %d operations from {write_line, write two lines, overwrite} x text length {1, 13} x an indentation scope of 0, 1 or 4 on the section; "
+                                "the emitted bytes interpreted by the C15 terminal emulator: every non-empty line shows the indentation in force when it was written" % (2 if quick else 3)})
     if quick:
         for ti in range(6):
             for short in (False, True):
@@ -321,6 +361,10 @@ def conditions(tier):
                 for short in (False, True):
                     conds.append({"name": "message[T1=%d,T5=%d,%s]" % (p0, p4, "short" if short else "long"), "fn": message, "timeout": t, "part": {"p0": p0, "p4": p4, "ti": None, "short": short},
                                   "bounds": "T1=%r, T5=%r; inner pieces and both tags symbolic" % (TEXTS[p0], TEXTS[p4])})
+    for route, rn in ((4, "format(style=), style refined after a first use"), (5, "add_style, style refined after a first use")):
+        for split in ((0, 3) if quick else (0, 2, 5, 7)):
+            conds.append({"name": "sgr[%s,first use with %d attributes]" % (rn, split), "fn": sgr, "timeout": t, "part": {"route": route, "split": split, "bgs": [0, 2], "fgs": [0, 2, 9] if quick else None},
+                          "bounds": "%s foregrounds x {none, red} backgrounds x 2^7 attribute sets; the Style object is rendered once with its foreground and the first %d attributes, then completed in place and rendered again" % ("3" if quick else "11", split)})
     conds.append({"name": "message_twin", "fn": message_twin, "timeout": t, "expect": "refute", "bounds": "reachability twin"})
     for route in range(4):
         rn = ["style set tag", "add_style", "format(style=)", "format(style=) with a registered tag"][route]
